@@ -8,3 +8,4 @@ open Servlin.C20
 #print axioms C20_no_leak
 #print axioms C20_oracle_accepts_model
 #print axioms Servlin.C05.C20_5xx_close
+#print axioms C20_other_errors
